@@ -121,6 +121,14 @@ pub fn run(tier: &str, seed: u64, report: &mut Report) {
                 plans.push((json!({"fault": {"op_index": i, "verb": verb, "path": path, "nth": nth, "kind": k}}), vec![fault_spec(&verb, &path, nth, k)], None));
             }
         }
+        // the same WRITE failing on its first two attempts, the second time with AlreadyExists: only reaches
+        // the code if it retries — and then "the first attempt must have got through" is the tempting mistake
+        for i in 0..n_ops {
+            let (verb, path, nth) = op_id_of(&ff.trace, i).unwrap();
+            if verb == "write" && (thorough || path.contains("/i/") || path.ends_with("BANDTAIL") || i % 3 == 0) {
+                plans.push((json!({"double_fault": {"op_index": i, "verb": verb, "path": path, "nth": nth, "kinds": ["ot", "ae"]}}), vec![fault_spec(&verb, &path, nth, "ot"), fault_spec(&verb, &path, nth + 1, "ae")], None));
+            }
+        }
         let n_multi = if thorough { 60 } else { 25 };
         for m in 0..n_multi {
             let (num, den) = if m % 2 == 0 { (1, 20) } else { (1, 5) };
@@ -146,7 +154,7 @@ pub fn run(tier: &str, seed: u64, report: &mut Report) {
                 report.hit("plan:random-multi-fault");
                 report.hit_n("random-faults-injected", injected.len() as u64);
             } else {
-                report.hit(&format!("plan:single-{}", faults[0].path.split('/').next().unwrap_or("?").chars().next().map(|c| if c == 'b' { "band" } else if c == 'd' { "blockdir" } else { "root" }).unwrap_or("?")));
+                report.hit(&format!("plan:{}-{}", if faults.len() > 1 { "double" } else { "single" }, faults[0].path.split('/').next().unwrap_or("?").chars().next().map(|c| if c == 'b' { "band" } else if c == 'd' { "blockdir" } else { "root" }).unwrap_or("?")));
             }
             if real.result.starts_with("result err") {
                 report.hit("outcome:error-returned");
